@@ -36,17 +36,32 @@
 (* forwarding goroutine first, then Wait): AgentClose_MC_waitcopy.cfg,      *)
 (* expected to FAIL - Close then depends on pipe end of file and hangs,     *)
 (* with the agent never reaped, for as long as a descendant lives.          *)
+(*                                                                         *)
+(* A writer blocked on standard input (agent.w).  The agent never reads its *)
+(* standard input and another goroutine pushes more than the pipe holds     *)
+(* through Stream.Write, so that Write is parked (WriteBlocks).  It comes    *)
+(* back - with an error - only when the write end is closed under it or the *)
+(* read end disappears with the process (WriteUnblocks).  Close is a        *)
+(* separate thread of steps (close stdin -> wait -> SIGTERM -> wait ->      *)
+(* SIGKILL, the TimerFires escalation) and none of them may wait on         *)
+(* something the parked Write holds.  SharedLock = FALSE is the code.       *)
+(* SharedLock = TRUE puts a mutex around the pipe write that Close takes    *)
+(* before closing standard input: the first escalation step is then         *)
+(* disabled while the writer is parked, the agent is never told to go, and  *)
+(* Close never returns (AgentClose_MC_writelock.cfg, expected to FAIL       *)
+(* Returns).                                                                *)
 (***************************************************************************)
 EXTENDS AgentCloseProps
 
-CONSTANTS Agents, WaitsForCopy
-VARIABLES agent, phase, exited, waited, stdinClosed, termSent, killSent, returned, childAlive, copyDone
-vars == <<agent, phase, exited, waited, stdinClosed, termSent, killSent, returned, childAlive, copyDone>>
+CONSTANTS Agents, WaitsForCopy, SharedLock
+VARIABLES agent, phase, exited, waited, stdinClosed, termSent, killSent, returned, childAlive, copyDone, wstate
+vars == <<agent, phase, exited, waited, stdinClosed, termSent, killSent, returned, childAlive, copyDone, wstate>>
 
 Init == /\ agent \in Agents /\ phase = 1 /\ exited = FALSE /\ waited = FALSE
         /\ stdinClosed = FALSE /\ termSent = FALSE /\ killSent = FALSE /\ returned = FALSE
         /\ childAlive = (agent.child # "none")
         /\ copyDone = ~agent.recv            \* no receiver: no pipe, no forwarding goroutine
+        /\ wstate = (IF agent.w THEN "idle" ELSE "none")
 
 \* who holds the write end of the standard error pipe
 Holders == (IF exited THEN {} ELSE {"agent"})
@@ -60,40 +75,53 @@ MayExit ==
   \/ agent.kind = "term" /\ termSent /\ (~agent.slow \/ phase >= 4)
 
 ProcExit == /\ ~exited /\ MayExit /\ exited' = TRUE
-            /\ UNCHANGED <<agent, phase, waited, stdinClosed, termSent, killSent, returned, childAlive, copyDone>>
+            /\ UNCHANGED <<agent, phase, waited, stdinClosed, termSent, killSent, returned, childAlive, copyDone, wstate>>
 \* only the "dies" child ever goes away, and only after the agent
 ChildExit == /\ childAlive /\ agent.child = "dies" /\ exited /\ childAlive' = FALSE
-             /\ UNCHANGED <<agent, phase, exited, waited, stdinClosed, termSent, killSent, returned, copyDone>>
+             /\ UNCHANGED <<agent, phase, exited, waited, stdinClosed, termSent, killSent, returned, copyDone, wstate>>
 \* io.Copy(receiver, standardError) returns: end of file, or the read end was closed by Wait
 CopyEnds == /\ ~copyDone /\ (PipeEOF \/ waited) /\ copyDone' = TRUE
-            /\ UNCHANGED <<agent, phase, exited, waited, stdinClosed, termSent, killSent, returned, childAlive>>
+            /\ UNCHANGED <<agent, phase, exited, waited, stdinClosed, termSent, killSent, returned, childAlive, wstate>>
 \* the waiting goroutine: waitResults <- s.process.Wait()
 WaitDone == /\ exited /\ ~waited
             /\ (WaitsForCopy => copyDone)
             /\ waited' = TRUE
-            /\ UNCHANGED <<agent, phase, exited, stdinClosed, termSent, killSent, returned, childAlive, copyDone>>
+            /\ UNCHANGED <<agent, phase, exited, stdinClosed, termSent, killSent, returned, childAlive, copyDone, wstate>>
 \* case err := <-waitResults: return err
 TakeResult == /\ ~returned /\ waited /\ returned' = TRUE
-              /\ UNCHANGED <<agent, phase, exited, waited, stdinClosed, termSent, killSent, childAlive, copyDone>>
+              /\ UNCHANGED <<agent, phase, exited, waited, stdinClosed, termSent, killSent, childAlive, copyDone, wstate>>
 \* case <-waitTimer.C: escalate
+\* Stream.Write on a full pipe parks; on a closed or orphaned pipe it fails at once
+WriteBlocks == /\ wstate = "idle"
+               /\ wstate' = (IF stdinClosed \/ exited THEN "failed" ELSE "blocked")
+               /\ UNCHANGED <<agent, phase, exited, waited, stdinClosed, termSent, killSent, returned, childAlive, copyDone>>
+\* the parked Write returns an error: its descriptor was closed (Close) or nobody can read any more (exit)
+WriteUnblocks == /\ wstate = "blocked" /\ (stdinClosed \/ exited)
+                 /\ wstate' = "failed"
+                 /\ UNCHANGED <<agent, phase, exited, waited, stdinClosed, termSent, killSent, returned, childAlive, copyDone>>
 TimerFires ==
   /\ ~returned /\ phase \in 1..3
+  /\ ~(SharedLock /\ phase = 1 /\ wstate = "blocked")     \* closing stdin would first need the writer's mutex
   /\ phase' = phase + 1
   /\ stdinClosed' = (stdinClosed \/ phase = 1)
   /\ termSent' = (termSent \/ phase = 2)
   /\ killSent' = (killSent \/ phase = 3)
-  /\ UNCHANGED <<agent, exited, waited, returned, childAlive, copyDone>>
+  /\ UNCHANGED <<agent, exited, waited, returned, childAlive, copyDone, wstate>>
 
-Next == ProcExit \/ ChildExit \/ CopyEnds \/ WaitDone \/ TakeResult \/ TimerFires
+Next == ProcExit \/ ChildExit \/ CopyEnds \/ WaitDone \/ TakeResult \/ TimerFires \/ WriteBlocks \/ WriteUnblocks
 Spec == Init /\ [][Next]_vars
 FairSpec == Spec /\ WF_vars(ProcExit) /\ WF_vars(ChildExit) /\ WF_vars(CopyEnds) /\ WF_vars(WaitDone)
-                 /\ WF_vars(TakeResult) /\ WF_vars(TimerFires)
+                 /\ WF_vars(TakeResult) /\ WF_vars(TimerFires) /\ WF_vars(WriteBlocks) /\ WF_vars(WriteUnblocks)
 
 Obs == [returned |-> returned, alive |-> ~exited]
 Inv_Exited == C35_Exited(Obs)
 Inv_Reaped == returned => waited
 Inv_Order == (killSent => termSent) /\ (termSent => stdinClosed)
 \* Close does not depend on the pipe: it may return while a descendant still holds it
+\* no step of Close waits on anything a parked Write holds
+Inv_CloseNeverWaitsOnWriter == (~returned /\ phase \in 1..3) => ENABLED TimerFires
+\* a parked Write always comes back (with an error)
+WriterReleased == [](wstate = "blocked" => <>(wstate = "failed"))
 Returns == <>C35_Returns(Obs)
 \* ... and the agent is reaped although the pipe never reaches end of file
 ReapedDespiteHolders == <>(waited)
